@@ -358,6 +358,20 @@ func genC09(c *Ctx) any {
 		case 5, 6, 7:
 			in = joinTokens(r, mutateTokens(r, genTokens(r, r.Range(0, 3), true)))
 		case 8:
+			if i == 0 && r.Chance(1, 12) {
+				// one very long chain per few cases: thousands of operands (counters, buffers, limits)
+				n := []int{1000, 4095, 4096, 4097, 5000, 10000}[r.Intn(6)]
+				op := []string{" & ", "|", " |\n"}[r.Intn(3)]
+				var sb strings.Builder
+				for k := 0; k < n; k++ {
+					if k > 0 {
+						sb.WriteString(op)
+					}
+					sb.WriteString(fieldNames[k%len(fieldNames)] + `="1"`)
+				}
+				in = sb.String()
+				break
+			}
 			// mixed & and | without parentheses, or a trailing expression after a complete one
 			a, b := genTokens(r, 1, true), genTokens(r, 0, true)
 			in = joinTokens(r, append(append(a, []string{"&", "|", ")", "", " "}[r.Intn(5)]), b...))
